@@ -402,10 +402,12 @@ fn opts(p: f64) -> BoxedStrategy<Opts> {
     let compression = prop::option::weighted(
         p,
         prop_oneof![
-            2 => Just(0i32),
-            3 => prop::sample::select(vec![-8i32, -7, -1, 1, 3, 22, 23]),
-            1 => -7i32..=19,
-            1 => prop::sample::select(vec![-131_073i32, -131_072, i32::MIN, i32::MAX]),
+            8 => Just(0i32),
+            12 => prop::sample::select(vec![-8i32, -7, -1, 1, 3, 23]),
+            // the upper boundary: rare, because a backup at an ultra level needs several GB
+            1 => Just(22i32),
+            4 => -7i32..=19,
+            4 => prop::sample::select(vec![-131_073i32, -131_072, i32::MIN, i32::MAX]),
         ],
     );
     let append_only = prop::option::weighted(p * 0.25, prop::bool::weighted(0.4));
@@ -819,6 +821,18 @@ pub fn run_config(c: &CfgCase, ctx: &Ctx) -> Outcome {
             return out;
         }};
     }
+
+    // (memory) at most one case with a zstd ultra level at a time, see `repo::ultra_gate`
+    let top_level = std::iter::once(match &c.start {
+        Start::Init(o) => o.compression,
+        Start::V1 => None,
+    })
+    .chain(c.steps.iter().map(|s| s.compression))
+    .flatten()
+    .filter(|l| *l <= 22)
+    .max();
+    crate::repo::ultra_gate(top_level);
+    out = out.class_if(top_level.is_some_and(|l| l >= 20), "zstd_ultra_level");
 
     let storage = Storage::new();
     let creds = creds_cfg().credentials();
